@@ -465,8 +465,9 @@ With agent-refine's theorems merged (`Build.push_takeRest`, `Props.C01.runRows_r
            integer type) — exclusions of recorded findings, each with a witness theorem in this file;
            `Safe root0` (Build/Inv.lean: no dictionary with non-nullable keys below a nullable struct / fixed-size
            list; a property of the fresh root, i.e. of the schema — `Props.C01.dict_placeholder_unstable`)
-  rows     `rawOK` (raw key/value call streams alternate; vacuous without `mapRaw`), `SValOK` (an iN/uN/f32/f64 call
-           carries a value of that width)
+  rows     `SValOK` (an iN/uN/f32/f64 call carries a value of that width).  The former assumption `rawOK` (raw key/value
+           call streams alternate) is GONE: since repo fix bcc3416 a Map builder refuses the streams that do not
+           (`Props.C01.map_refuses_non_alternating`), so `toMarrow … = .ok arrs` already excludes them
   Ext      `ExtOK` (what the external chrono parsers return fits the column's storage)
 (the former size assumption `ViewSmall` is now derived: the view builders refuse lengths / offsets beyond `i32::MAX`, the
 state invariant `WFB` carries the buffer bound — `Build.WFB_small`) -/
@@ -480,7 +481,7 @@ theorem C03_wf (ext : Ext) (fields : List Field) (rows : List SVal) (arrs : List
     (hmap : ∀ f ∈ fields, Lemmas.C03.Map2F f) (hschema : ∀ f ∈ fields, Lemmas.C03.SchemaOKF f)
     (hsafe : ∀ root0, newRoot fields = .ok root0 → Safe root0)
     (hext : Lemmas.C03.ExtOK ext)
-    (hraw : ∀ x ∈ rows, Build.rawOK x = true) (hrows : ∀ x ∈ rows, Lemmas.C03.SValOK x)
+    (hrows : ∀ x ∈ rows, Lemmas.C03.SValOK x)
     (h : toMarrow ext fields rows = .ok arrs) :
     arrs.length = fields.length ∧
     ∀ (j : Nat) (f : Field) (a : Arr), fields[j]? = some f → arrs[j]? = some a →
@@ -493,7 +494,7 @@ theorem C03_wf (ext : Ext) (fields : List Field) (rows : List SVal) (arrs : List
     | error e => rw [hr] at hrun; cases hrun
     | ok r0 => exact ⟨r0, rfl⟩
   obtain ⟨root0, h0⟩ := h0
-  obtain ⟨hw, hlen, _, hcols⟩ := Props.C01.runRows_rows ext fields rows root0 root h0 (hsafe root0 h0) hraw hrun
+  obtain ⟨hw, hlen, _, hcols⟩ := Props.C01.runRows_rows ext fields rows root0 root h0 (hsafe root0 h0) hrun
   have hfacts := root_facts ext fields rows root hmap hschema (Build.push_takeRest ext) hw
     (Lemmas.C03.WFB_StrictDict root hw) hrun
   have hx := Lemmas.C03.runRows_WFX ext hext fields rows root hrows hrun (Build.WFB_small root hw)
@@ -540,7 +541,6 @@ columns the final builder state holds (`decRoot root`, `rows.length` slots each)
 theorem toMarrow_decode_state (ext : Ext) (fields : List Field) (rows : List SVal) (arrs : List Arr)
     (hmap : ∀ f ∈ fields, Lemmas.C03.Map2F f) (hschema : ∀ f ∈ fields, Lemmas.C03.SchemaOKF f)
     (hsafe : ∀ root0, newRoot fields = .ok root0 → Safe root0)
-    (hraw : ∀ x ∈ rows, Build.rawOK x = true)
     (h : toMarrow ext fields rows = .ok arrs) :
     ∃ root, runRows ext fields rows = .ok root ∧ arrs.map decodeAll = (decRoot root).map (·.map .ok) ∧
       ∀ col ∈ decRoot root, col.length = rows.length := by
@@ -552,7 +552,7 @@ theorem toMarrow_decode_state (ext : Ext) (fields : List Field) (rows : List SVa
       | error e => rw [hr] at hrun; cases hrun
       | ok r0 => exact ⟨r0, rfl⟩
     obtain ⟨root0, h0⟩ := h0
-    obtain ⟨hw, _, _, hc⟩ := Props.C01.runRows_rows ext fields rows root0 root h0 (hsafe root0 h0) hraw hrun
+    obtain ⟨hw, _, _, hc⟩ := Props.C01.runRows_rows ext fields rows root0 root h0 (hsafe root0 h0) hrun
     exact ⟨hw, hc⟩
   obtain ⟨root, hrun, hd⟩ := toMarrow_decode_of_root ext fields rows arrs (fun r hr => (hroot r hr).1)
     (fun r hr => (root_facts ext fields rows r hmap hschema (Build.push_takeRest ext) (hroot r hr).1
@@ -607,7 +607,7 @@ example : ∀ arrs, toMarrow {} exFields exRows = .ok arrs →
     arrs.length = exFields.length ∧ ∀ (j : Nat) (f : Field) (a : Arr), exFields[j]? = some f →
       arrs[j]? = some a → WF f a = true ∧ (decodeAll a).length = exRows.length := by
   intro arrs h
-  refine C03_wf {} exFields exRows arrs ?_ ?_ ?_ ?_ ?_ ?_ h
+  refine C03_wf {} exFields exRows arrs ?_ ?_ ?_ ?_ ?_ h
   · simp [exFields, Lemmas.C03.Map2F, Lemmas.C03.Map2]
   · simp [exFields, Lemmas.C03.SchemaOKF, Lemmas.C03.SchemaOK]
   · intro root0 h0
@@ -618,8 +618,17 @@ example : ∀ arrs, toMarrow {} exFields exRows = .ok arrs →
     cases h0
     simp [Safe, SafeL]
   · constructor <;> (intros; rename_i h; cases h)
-  · decide
   · simp [exRows, Lemmas.C03.SValOK, Lemmas.C03.SFieldsOK, Lemmas.C03.SValsOK, Lemmas.C03.ScalarOK, IntTy.inRange,
       IntTy.min, IntTy.max]
+
+/-! `C03_wf` without `rawOK`: rows may carry raw key/value call streams.  Into a Map column the stream that does not
+alternate is refused (`Props.C01.map_refuses_non_alternating`) — `to_marrow` is an error, there is no array to speak
+about; the alternating one is accepted and the Map array is well formed with one row. -/
+example : (toMarrow {} Props.C01.exMapFields
+    [.record "R" (.cons "m" 0 (.mapRaw (.key (.str "x") (.key (.str "") .nil))) .nil)]).isErr = true := by decide +kernel
+example : (match toMarrow {} Props.C01.exMapFields
+      [.record "R" (.cons "m" 0 (.mapRaw (.key (.str "x") (.value (.int .i32 1) .nil))) .nil)] with
+    | .ok [a] => Props.C01.exMapFields.all (fun f => WF f a) && (decodeAll a).length == 1
+    | _ => false) = true := by decide +kernel
 
 end SaModel.Props.C03
